@@ -76,10 +76,29 @@ def sortB : List Bytes → List Bytes
   | [] => []
   | a :: l => insB a (sortB l)
 
+def insI (a : Int) : List Int → List Int
+  | [] => [a]
+  | b :: l => if a < b then a :: b :: l else if a = b then b :: l else b :: insI a l
+/-- sorted set of distinct integers -/
+def sortSetI : List Int → List Int
+  | [] => []
+  | a :: l => insI a (sortSetI l)
+
+/-- is this node's estimation of this container for epoch `e` still stored? (`ch` = cid ‖ h10, 42 bytes) -/
+def estStored (c : CState) (ch : Bytes) (e : Int) : Bool :=
+  c.cnr.any (fun kv => kv.1.length ≥ 45 && kv.1.drop (kv.1.length - 42) == ch &&
+    decInt ((kv.1.drop 3).take (kv.1.length - 45)) == e)
+
+/-- canonical form of an `est‖cid‖h20 ↦ []epoch` record (internal bookkeeping that no read method exposes): the
+    sorted set of the listed epochs whose estimation is still stored; see the harness (`famState`) -/
+def estCanon (c : CState) (kv : Bytes × List Int) : List Int :=
+  let l := sortSetI kv.2
+  if kv.1.length = 55 then l.filter (estStored c ((kv.1.drop 3).take 42)) else l
+
 def cntStr (c : CState) : String :=
   let a := joinWith ";" ((isort c.cnr).map (fun kv => s!"{hexOf kv.1}:{estStr kv.2}"))
-  let b := joinWith ";" ((isort c.est).map (fun kv =>
-    s!"{hexOf kv.1}:" ++ (if kv.2.isEmpty then "-" else joinWith "," (kv.2.map toString))))
+  let recs := ((isort c.est).map (fun kv => (kv.1, estCanon c kv))).filter (fun r => !r.2.isEmpty)
+  let b := joinWith ";" (recs.map (fun r => s!"{hexOf r.1}:" ++ joinWith "," (r.2.map toString)))
   let l := joinWith ";" ((sortB c.live).map hexOf)
   s!"cnr=[{a}] est=[{b}] live=[{l}]"
 
